@@ -1414,9 +1414,12 @@ func (r *Raft) InstallSnapshot(
 
 	r.lastContact = time.Now()
 
-	// The received snapshot does not contain anything new.
+	// The received snapshot does not contain anything new. Acknowledge the chunk
+	// so that the leader finishes sending the snapshot and goes back to replicating
+	// log entries instead of restarting the transfer over and over.
 	if r.lastIncludedIndex >= request.LastIncludedIndex ||
 		r.lastApplied >= request.LastIncludedIndex {
+		response.BytesWritten = request.Offset + int64(len(request.Bytes))
 		return nil
 	}
 
